@@ -434,15 +434,14 @@ Definition batch_mutate_leaf_and_update_mps (a : accumulator) (mps : list mproof
    given order; after each one the proofs of the mutations still to come are passed through
    batch_update_from_leaf_mutation (they sit in reversed order in the vector; the routine treats
    each proof independently, so the order is immaterial and the returned positions are unused). *)
-Fixpoint vbu_muts (running : list D) (leaf_count : Z) (lms : list leaf_mutation) : option (list D) :=
-  match lms with
-  | [] => Some running
-  | (leaf_index, new_leaf, lm_ap) :: r =>
+Fixpoint vbu_muts (running : list D) (leaf_count : Z) (ivs : list (Z * D)) (aps : list mproof)
+  : option (list D) :=
+  match ivs, aps with
+  | (leaf_index, new_leaf) :: ivs', lm_ap :: aps' =>
     let? running' := calculate_new_peaks_from_leaf_mutation running leaf_count new_leaf leaf_index lm_ap in
-    let? (aps, _) := batch_update_from_leaf_mutation (map (fun x => snd x) r) (map (fun x => fst (fst x)) r)
-                                                     (leaf_index, new_leaf, lm_ap) in
-    vbu_muts running' leaf_count
-             (map (fun p => (fst (fst (fst p)), snd (fst (fst p)), snd p)) (combine r aps))
+    let? (aps2, _) := batch_update_from_leaf_mutation aps' (map fst ivs') (leaf_index, new_leaf, lm_ap) in
+    vbu_muts running' leaf_count ivs' aps2
+  | _, _ => Some running
   end.
 Fixpoint vbu_appends (running : list D) (count : Z) (ds : list D) : option (list D) :=
   match ds with
@@ -459,7 +458,7 @@ Definition verify_batch_update (a : accumulator) (new_peaks : list D) (appended 
   else if (acc_is_empty a && negb (length idxs =? 0)%nat)
           || (negb (length idxs =? 0)%nat && (fst a <=? zmax idxs 0)) then Some false
   else
-    let? running := vbu_muts (snd a) (fst a) lms in
+    let? running := vbu_muts (snd a) (fst a) (map fst lms) (map snd lms) in
     let? running := vbu_appends running (fst a) appended in
     Some (list_deq running new_peaks).
 
